@@ -181,6 +181,16 @@ def r2(ctx):
         if what == "sum":
             ok = is_row_value(rhs) and peel(locs.chase(rhs), methods=False)["k"] == "Path"
             why = "get_buffer_sum must add each value once; found `%s`" % rr
+            # SUM of an integer column is exact: the values are added as integers (a float accumulator rounds above 2^53)
+            INTS = ("u64", "usize", "u128", "i64", "i128", "isize")
+            ty = str(peel(rhs).get("ty", "")).lstrip("&")
+            n += 1
+            ok_int = ty in INTS
+            ctx.obligation(ok_int)
+            if not ok_int:
+                ctx.violation("primitive/sum-exact", ctx.where(fn, rhs),
+                              "get_buffer_sum adds its values as `%s`: the SUM of an integer column must be exact (integer accumulation); "
+                              "a floating-point accumulator silently rounds totals above 2^53" % ty)
         else:
             ok = False
             d = peel(locs.chase(rhs), methods=False)
@@ -203,6 +213,20 @@ def r2(ctx):
         ctx.obligation(bool(ok))
         if not ok:
             ctx.violation("primitive/%s-formula" % what, ctx.where(fn, rhs), why)
+    # MIN / MAX of an integer column are exact: the extremum is taken over integers, not over floats (which merge
+    # neighbouring values above 2^53 and print them rounded)
+    for fn in ("Min", "Max"):
+        a = arms.get(fn)
+        for x in (walk_exprs(a["body"]) if a else []):
+            if x["k"] == "MCall" and x["m"] in ("min", "max", "min_by", "max_by", "min_by_key", "max_by_key"):
+                ty = str(x.get("ty", ""))
+                inner = ty[len("core::option::Option<"):-1].lstrip("&") if ty.startswith("core::option::Option<") else ty
+                n += 1
+                ok_int = inner in ("u64", "usize", "u128", "i64", "i128", "isize")
+                ctx.obligation(ok_int)
+                if not ok_int:
+                    ctx.violation("primitive/%s-exact" % fn.lower(), ctx.where(AGG, x),
+                                  "%s takes the extremum over values of type `%s`: the MIN / MAX of an integer column must be exact (integer comparison)" % (fn, inner))
     # all of them read the column named by buffer_key
     for fn in ("Min", "Max"):
         a = arms.get(fn)
@@ -292,6 +316,7 @@ RULES = [
     ("X-PIPELINE", "the per-entry pipeline of check_file evaluated on its scenario table (filter, count, row, buffer key, separator, closed output) [shared]", lambda ctx: __import__("cfile").pipeline(ctx)),
     ("X-OUTPUT", "the output phase of list_search_results evaluated on its scenario table (drain order, aggregate row, groups, failing output) [shared]", lambda ctx: __import__("lsr").output_phase(ctx)),
     ("C08-R4", "inside a group, function arguments are evaluated over that group's rows (nested aggregates) [shared with C08]", lambda ctx: __import__("gcev").nested_scope(ctx)),
+    ("X-EXPRWALK", "recursive walks of an expression's value layer visit left, right and the further arguments [shared]", lambda ctx: __import__("extra2").value_walks_reach_arguments(ctx)),
 ]
 
 EXPLANATION = (
